@@ -48,7 +48,16 @@ def run(check, tier, seed, scratch):
     check.cov['model_counterexamples'] = len(cex)
     up, u3, cu = Universe(UP), Universe(U3), algebra.CaseUniverse()
     triples = alggen.random_tuples(8000 if quick else 300000, len(U3), 3, seed)
+    # inner parameters SPELLED like outer's star parameters (a regular parameter called args / kwargs): no collision, the star disappears
+    from . import c04
+    Ui = [c04.rename(ps, {'a': 'args', 'b': 'kwargs'}) for ps in tlc.export_universe(scratch, 'ab', ['rest'], ['kw'], 2)]
+    Uo = [ps for ps in U2 if alggen.has_star(ps)]
+    Umix = Uo + Ui
+    pairs = [(i, len(Uo) + j) for i in range(len(Uo)) for j in range(len(Ui))]
+    if quick:
+        pairs = random.Random(seed + 9).sample(pairs, 6000)
     gen = alggen.chain(alggen.embed_pairs(up, UP, sample_other=0.2 if quick else 1.0, seed=seed), law_gen(u3, U3, triples),
+                       alggen.embed_tuples(Universe(Umix), Umix, pairs, tag='embed-starnames'),
                        alggen.cex_events(cu, 'embed', cex))
     run_trace_leg(check, scratch, 'embed+laws', gen, WANT)
     check.cov['exhaustive'] = True
